@@ -1,0 +1,6 @@
+//go:build !verif
+
+package litefs
+
+// verifPoint is a no-op unless built with the "verif" tag.
+func verifPoint(name string, db *DB, arg uint32) {}
